@@ -16,19 +16,19 @@ META = {
                  'operators (Trace_Demux.tla); TLC-generated scenarios of the design are replayed into the real loader',
     'level_text': 'TLC exhaustively checks the design of the loop (one action per arm: accept, reject via base demultiplexer, raw '
                   'reject, base demultiplexer failure, generic error, cut-off, finish) against the conservation property for all '
-                  'outcome matrices of 2-3 pairs x 2 strategies, all flag combinations; the five as-coded deviations (D2, D20, '
-                  'D21, D22, all) are negative controls. Real code: all 28 registered strategies, paired / single end, with / '
+                  'outcome matrices of 2-3 pairs x 2 strategies, all flag combinations; the six as-coded deviations (D2, D101, '
+                  'D102, D103, D104, all) are negative controls. Real code: all 28 registered strategies, paired / single end, with / '
                   'without rejects handle, joint / per-cell sinks (real HandleLimiter), maxReadPairs, every phred 0..93, 13 '
                   'header classes; every run is judged by TLC.',
     'level_note': 'Trusted: TLC/SANY, CommunityModules, the driver\'s lexical projection of the output files (4-line grouping, '
                   'header split on ; and :, id token regex), stdlib gzip as reader. "Demultiplexable" is what the strategy object '
-                  'itself returns for the identical records when called directly. Inputs never carry an MX tag naming a '
-                  'registered strategy. HandleLimiter fault handling is C19.',
+                  'itself returns for the identical records when called directly.'
+                  ' HandleLimiter fault handling is C19.',
     'design_ref': '3.1',
 }
 
-NEG = [('D2', ['Inv_C01_Once', 'Inv_C01_Counters']), ('D20', ['Inv_C01_WellFormed']), ('D21', ['Inv_C01_Once']),
-       ('D22', ['Inv_C01_Once']), ('impl', ['Inv_C01_Once', 'Inv_C01_Counters', 'Inv_C01_WellFormed'])]
+NEG = [('D2', ['Inv_C01_Once', 'Inv_C01_Counters']), ('D101', ['Inv_C01_WellFormed']), ('D102', ['Inv_C01_Once']),
+       ('D103', ['Inv_C01_Once']), ('D104', ['Inv_C01_Once']), ('impl', ['Inv_C01_Once', 'Inv_C01_Counters', 'Inv_C01_WellFormed'])]
 CELL_ACTIONS_Q = ['ReadPair', 'WriteAccepted', 'RejectViaBase', 'RejectRaw', 'HandleError', 'Finish']   # per-cell configs: fewer classes
 CELL_ACTIONS_T = ['ReadPair', 'WriteAccepted', 'RejectViaBase', 'RejectRaw', 'Finish']
 
@@ -41,30 +41,33 @@ def key_fn(ev, clause):
     """label of the failing case (never a verdict): clause | entry | shape of the offending pairs | sink configuration"""
     if ev['ev'] == 'same':
         a = ev['runs']
-        diff = sorted(set(str(x['cfg'][:2]) for x in a))
-        return '%s|configs=%s|%s' % (clause, '+'.join(diff), '+'.join(ev['strategies'])[:40])
-    cfg = '%s%s%s' % ('rej' if ev['hasRej'] else 'norej', '+percell' if ev['percell'] else '', '+se' if ev['mates'] == 1 else '')
+        return '%s|%d_configs|%s' % (clause, len(a), 'single' if len(ev['strategies']) == 1 else 'multi')
+    cfg = 'rej' if ev['hasRej'] else 'norej'
     n = ev['N'] if not ev['maxpairs'] else min(ev['N'], ev['maxpairs'])
-    shape = set()
+    sign = lambda d: '-' if d < 0 else ('+' if d > 0 else '0')
+    shape = []
     if ev['raised']:
-        shape.add('raised=' + ev['raised'])
+        shape.append('raised=' + ev['raised'])
     if clause in ('Inv_C01_Once', 'Inv_C01_AtMostOnce'):
         k = len(ev['strategies'])
-        for p in range(1, ev['N'] + 1):
+        for p in range(1, ev['N'] + 1):          # the first offending pair names the case
             t, r, a = _count(ev, 'tgt', p), _count(ev, 'rej', p), ev['acc'][p - 1].count('A')
             et, er = (a, (k - a) if ev['hasRej'] else 0) if p <= n else (0, 0)
             if (t, r) != (et, er):
-                shape.add('acc=%s:t%+d,r%+d' % (''.join(sorted(set(ev['acc'][p - 1]))), t - et, r - er))
+                shape.append('acc=%s:target%s,rejects%s' % (''.join(sorted(set(ev['acc'][p - 1]))), sign(t - et), sign(r - er)))
+                break
+        if ev['percell']:
+            shape.append('percell')
     elif clause == 'Inv_C01_WellFormed':
         raw = any(any(t[0] == 'Rr' for t in r.get('tags', [])) for sk in ev['rej'] for m in sk['mates'] for r in m['recs'])
         glued = any('@' in r.get('qual', '') and r['ql'] != r['sl'] for sk in ev['rej'] for m in sk['mates'] for r in m['recs'])
-        shape.add('rejects_glued_after_raw_fallback' if raw or glued else 'other')
+        shape.append('rejects_glued_after_raw_fallback' if raw or glued else 'other')
     elif clause == 'Inv_C01_Counters':
         nt = sum(len(sk['mates'][0]['recs']) for sk in ev['tgt'])
-        shape.add('yields%+d_vs_written' % (sum(ev['yields']) - nt) if sum(ev['yields']) != nt else 'other')
+        shape.append('yields%swritten' % {'-': '<', '+': '>', '0': '='}[sign(sum(ev['yields']) - nt)])
         if any('E' in row for row in ev['acc']):
-            shape.add('error_arm')
-    return '%s|%s|%s|%s' % (clause, ev['entry'], ','.join(sorted(shape))[:120] or '-', cfg)
+            shape.append('error_arm')
+    return '%s|%s|%s|%s' % (clause, ev['entry'], ','.join(shape)[:120] or '-', cfg)
 
 
 def what_fn(ev, clause):
@@ -205,8 +208,9 @@ def run(tier):
         kind, cfg, inv, acts = job
         big = cfg.endswith('_t.cfg')
         if kind == 'pass':
-            return kind, vlib.mc('Demux', cfg, expect='pass', workers=8 if big else 3, timeout=1500, actions_required=acts)
-        return kind, vlib.mc('Demux', cfg, expect='fail', expect_inv=inv, workers=2, timeout=600)
+            return kind, vlib.mc('Demux', cfg, expect='pass', workers=8 if big else 3, timeout=1500, actions_required=acts,
+                                 heap='6g' if big else '2g')
+        return kind, vlib.mc('Demux', cfg, expect='fail', expect_inv=inv, workers=2, timeout=600, heap='2g')
     with ThreadPoolExecutor(4) as ex:
         for kind, r in ex.map(mc, jobs):
             c.add_mc(r, 'design' if kind == 'pass' else 'negative_control')
@@ -271,7 +275,7 @@ def run(tier):
             distinct.add((tuple(e['strategies']), e['mates'], e['hasRej'], e['percell'], bool(e['maxpairs']), cl[0],
                           cl[1].split('(')[0], tuple(row)))
     c.assumptions += ['"demultiplexable" = the strategy object, called directly on the identical FastqRecord tuple, returns records '
-                      'that format (recorded as acc); generated inputs never carry an MX tag naming a registered strategy',
+                      'that format (recorded as acc)',
                       'maxReadPairs >= 1 (demux.py never passes 0)',
                       'a final record without trailing newline at the very end of a file is not treated as malformed']
     return c.finish(rule='one trace = one real execution of DemultiplexingStrategyLoader.demultiplex (or of demux.py) on a generated '
